@@ -10,4 +10,5 @@ def bounded_jobs(tier, seed):
     return [
         bj('rcc.b_C15', 'run_convert', tier, seed),
         bj('rcc.b_C15', 'run_write', tier, seed),
+        bj('rcc.b_C15', 'run_history', tier, seed),
     ]
